@@ -12,6 +12,7 @@ Arguments N.ltb : simpl never.
 Arguments N.eqb : simpl never.
 
 Definition no_err (outs : list kout) : bool := forallb (fun o => negb (is_err o)) outs.
+Definition is_fail (e : kev) : bool := match e with ConnFail _ => true | _ => false end.
 
 Lemma krun_cons ka s e r :
   krun ka s (e :: r) = let (s1, o1) := kstep ka s e in let (s2, o2) := krun ka s1 r in (s2, o1 ++ o2).
@@ -22,13 +23,14 @@ Fixpoint pings (d ka : N) (n : nat) : list kout :=
   match n with O => [] | S m => PingReqAt d :: pings (d + ka) ka m end.
 
 (** ---- period *)
-Lemma period_gen ka tr : forall s d s' outs, 0 < ka ->
+Lemma period_gen ka tr : forall s d s' outs, 0 < ka -> existsb is_fail tr = false ->
   deadline s = Some d -> prompt ka s tr = true -> krun ka s tr = (s', outs) -> no_err outs = true ->
   exists n, outs = pings d ka n /\ deadline s' = Some (d + N.of_nat n * ka).
 Proof.
-  induction tr as [| e tr IH]; intros s d s' outs Hka Hd Hp Hr Hn.
+  induction tr as [| e tr IH]; intros s d s' outs Hka Hnf Hd Hp Hr Hn.
   - cbn in Hr. inversion Hr. subst. exists O. split; [reflexivity|]. rewrite Hd. f_equal. lia.
-  - cbn [prompt] in Hp. apply andb_true_iff in Hp. destruct Hp as [Hpe Hp].
+  - cbn [existsb] in Hnf. apply orb_false_iff in Hnf. destruct Hnf as [Hnfe Hnf].
+    cbn [prompt] in Hp. apply andb_true_iff in Hp. destruct Hp as [Hpe Hp].
     rewrite krun_cons in Hr. destruct (kstep ka s e) as [s1 o1] eqn:E1. destruct (krun ka s1 tr) as [s2 o2] eqn:E2.
     inversion Hr. subst s' outs. clear Hr. cbn [fst] in Hp.
     unfold no_err in Hn. rewrite forallb_app in Hn. apply andb_true_iff in Hn. destruct Hn as [Hn1 Hn2].
@@ -46,22 +48,23 @@ Proof.
       - inversion E1. subst. left. auto.
       - inversion E1. subst. left. auto.
       - inversion E1. subst. left. auto.
-      - inversion E1. subst. left. auto. }
+      - inversion E1. subst. left. auto.
+      - discriminate. }
     destruct Hcase as [[-> Hd1] | [-> Hd1]].
-    + destruct (IH s1 d s2 o2 Hka Hd1 Hp E2 Hn2) as [n [Ho Hdd]]. exists n. auto.
-    + destruct (IH s1 (d + ka) s2 o2 Hka Hd1 Hp E2 Hn2) as [n [Ho Hdd]]. exists (S n). split.
+    + destruct (IH s1 d s2 o2 Hka Hnf Hd1 Hp E2 Hn2) as [n [Ho Hdd]]. exists n. auto.
+    + destruct (IH s1 (d + ka) s2 o2 Hka Hnf Hd1 Hp E2 Hn2) as [n [Ho Hdd]]. exists (S n). split.
       * cbn [app pings]. rewrite Ho. reflexivity.
       * rewrite Hdd. f_equal. lia.
 Qed.
 
 (** from the connection established at [c]: PINGREQs exactly at c + ka, c + 2 ka, ..., c + n ka, and
     the timer is armed for c + (n+1) ka: one PINGREQ per keep-alive interval *)
-Theorem ka_period ka c tr s' outs : 0 < ka ->
+Theorem ka_period ka c tr s' outs : 0 < ka -> existsb is_fail tr = false ->
   prompt ka (fst (kstep ka kinit (Connect c))) tr = true ->
   krun ka (fst (kstep ka kinit (Connect c))) tr = (s', outs) -> no_err outs = true ->
   exists n, outs = pings (c + ka) ka n /\ deadline s' = Some (c + ka + N.of_nat n * ka).
 Proof.
-  intros Hka Hp Hr Hn. apply (period_gen ka tr (fst (kstep ka kinit (Connect c))) (c + ka) s' outs Hka); auto.
+  intros Hka Hnf Hp Hr Hn. apply (period_gen ka tr (fst (kstep ka kinit (Connect c))) (c + ka) s' outs Hka Hnf); auto.
   unfold kstep. cbn [kstep_gen andb kinit deadline fst]. destruct (N.eqb_spec ka 0); [lia|reflexivity].
 Qed.
 
@@ -70,12 +73,13 @@ Definition is_pingresp (e : kev) : bool := match e with PingResp _ => true | _ =
 Definition is_parked (e : kev) : bool := match e with Parked _ => true | _ => false end.
 
 Theorem ka_detect ka tr : forall s d s' outs,
-  deadline s = Some d -> await s = true ->
+  deadline s = Some d -> await s = true -> existsb is_fail tr = false ->
   prompt ka s tr = true -> existsb is_pingresp tr = false -> In (Tick d) tr ->
   krun ka s tr = (s', outs) ->
   exists rest, outs = ErrAwait d :: rest \/ (outs = ErrCollision d :: rest /\ (coll s = true \/ existsb is_parked tr = true)).
 Proof.
-  induction tr as [| e tr IH]; intros s d s' outs Hd Ha Hp Hnp Hin Hr; [destruct Hin|].
+  induction tr as [| e tr IH]; intros s d s' outs Hd Ha Hnf Hp Hnp Hin Hr; [destruct Hin|].
+  cbn [existsb] in Hnf. apply orb_false_iff in Hnf. destruct Hnf as [Hnfe Hnf].
   cbn [prompt] in Hp. apply andb_true_iff in Hp. destruct Hp as [Hpe Hp].
   cbn [existsb] in Hnp. apply orb_false_iff in Hnp. destruct Hnp as [Hne Hnp].
   rewrite krun_cons in Hr. destruct (kstep ka s e) as [s1 o1] eqn:E1. destruct (krun ka s1 tr) as [s2 o2] eqn:E2.
@@ -89,25 +93,25 @@ Proof.
     destruct (coll s) eqn:Ec; cbn [andb] in E1.
     - destruct (2 <=? cpc s + 1); inversion E1; subst; eexists; [right|left]; cbn [app]; auto.
     - inversion E1. subst. eexists. left. reflexivity. }
-  destruct e; cbn [is_pingresp] in Hne; try discriminate.
+  destruct e; cbn [is_pingresp is_fail] in Hne, Hnfe; try discriminate.
   - (* Connect *) unfold kstep in E1; cbn [kstep_gen andb] in E1. rewrite Hd in E1. inversion E1. subst.
     destruct Hin as [Hin | Hin]; [discriminate|].
-    destruct (IH (mkK (Some d) (await s) (coll s) (cpc s)) d s2 o2 eq_refl Ha Hp Hnp Hin E2) as [rest [Ho | [Ho Hc]]]; exists rest; cbn [app]; [left; exact Ho|right].
+    destruct (IH (mkK (Some d) (await s) (coll s) (cpc s)) d s2 o2 eq_refl Ha Hnf Hp Hnp Hin E2) as [rest [Ho | [Ho Hc]]]; exists rest; cbn [app]; [left; exact Ho|right].
     split; [exact Ho|]. cbn [coll existsb is_parked] in *. exact Hc.
   - (* Tick *) destruct (N.leb_spec d t) as [Hle | Hlt].
     + destruct (Hfire t eq_refl Hle) as [rest [Ho | [Ho Hc]]]; exists rest; [left; exact Ho|right; auto].
     + unfold kstep in E1; cbn [kstep_gen andb] in E1. rewrite Hd in E1. destruct (N.leb_spec d t); [lia|]. inversion E1. subst.
       destruct Hin as [Hin | Hin]; [inversion Hin; lia|].
-      destruct (IH _ d s2 o2 Hd Ha Hp Hnp Hin E2) as [rest [Ho | [Ho Hc]]]; exists rest; cbn [app]; [left; exact Ho|right].
+      destruct (IH _ d s2 o2 Hd Ha Hnf Hp Hnp Hin E2) as [rest [Ho | [Ho Hc]]]; exists rest; cbn [app]; [left; exact Ho|right].
       split; [exact Ho|]. cbn [existsb is_parked]. exact Hc.
   - (* Other *) unfold kstep in E1; cbn [kstep_gen andb] in E1. inversion E1. subst. destruct Hin as [Hin | Hin]; [discriminate|].
-    destruct (IH _ d s2 o2 Hd Ha Hp Hnp Hin E2) as [rest [Ho | [Ho Hc]]]; exists rest; cbn [app]; [left; exact Ho|right].
+    destruct (IH _ d s2 o2 Hd Ha Hnf Hp Hnp Hin E2) as [rest [Ho | [Ho Hc]]]; exists rest; cbn [app]; [left; exact Ho|right].
     split; [exact Ho|]. cbn [existsb is_parked]. exact Hc.
   - (* Parked *) unfold kstep in E1; cbn [kstep_gen andb] in E1. inversion E1. subst. destruct Hin as [Hin | Hin]; [discriminate|].
-    destruct (IH (mkK (deadline s) (await s) true (cpc s)) d s2 o2 Hd Ha Hp Hnp Hin E2) as [rest [Ho | [Ho Hc]]]; exists rest; cbn [app]; [left; exact Ho|right].
+    destruct (IH (mkK (deadline s) (await s) true (cpc s)) d s2 o2 Hd Ha Hnf Hp Hnp Hin E2) as [rest [Ho | [Ho Hc]]]; exists rest; cbn [app]; [left; exact Ho|right].
     split; [exact Ho|]. right. reflexivity.
   - (* Resolved *) unfold kstep in E1; cbn [kstep_gen andb] in E1. inversion E1. subst. destruct Hin as [Hin | Hin]; [discriminate|].
-    destruct (IH (mkK (deadline s) (await s) false 0) d s2 o2 Hd Ha Hp Hnp Hin E2) as [rest [Ho | [Ho Hc]]]; exists rest; cbn [app]; [left; exact Ho|right].
+    destruct (IH (mkK (deadline s) (await s) false 0) d s2 o2 Hd Ha Hnf Hp Hnp Hin E2) as [rest [Ho | [Ho Hc]]]; exists rest; cbn [app]; [left; exact Ho|right].
     split; [exact Ho|]. cbn [coll] in Hc. destruct Hc as [Hc | Hc]; [discriminate|]. right. cbn [existsb is_parked]. exact Hc.
 Qed.
 
@@ -138,14 +142,15 @@ Fixpoint answered (ka : N) (s : kstate) (tr : list kev) : bool :=
   end.
 
 Theorem ka_no_false_alarm ka tr : forall s s' outs,
-  coll s = false -> existsb is_parked tr = false ->
+  coll s = false -> existsb is_parked tr = false -> existsb is_fail tr = false ->
   (await s = true -> exists d, deadline s = Some d /\ existsb (reply_before d) tr = true) ->
   sorted tr = true -> prompt ka s tr = true -> answered ka s tr = true ->
   krun ka s tr = (s', outs) -> no_err outs = true.
 Proof.
-  induction tr as [| e tr IH]; intros s s' outs Hc Hnp Hinv Hs Hp Ha Hr.
+  induction tr as [| e tr IH]; intros s s' outs Hc Hnp Hnf Hinv Hs Hp Ha Hr.
   - cbn in Hr. inversion Hr. reflexivity.
-  - cbn [sorted] in Hs. apply andb_true_iff in Hs. destruct Hs as [Hse Hs].
+  - cbn [existsb] in Hnf. apply orb_false_iff in Hnf. destruct Hnf as [Hnfe Hnf].
+    cbn [sorted] in Hs. apply andb_true_iff in Hs. destruct Hs as [Hse Hs].
     cbn [prompt] in Hp. apply andb_true_iff in Hp. destruct Hp as [Hpe Hp].
     cbn [existsb] in Hnp. apply orb_false_iff in Hnp. destruct Hnp as [Hne Hnp].
     cbn [answered] in Ha. rewrite krun_cons in Hr.
@@ -158,12 +163,12 @@ Proof.
               is_pingresp e = false ->
               forallb (fun o => negb (is_err o)) [] = true /\ no_err o2 = true).
     { intros _ Hd1 Hc1 Haw _ Hnr. split; [reflexivity|].
-      refine (IH s1 s2 o2 Hc1 Hnp _ Hs Hp Ha E2).
+      refine (IH s1 s2 o2 Hc1 Hnp Hnf _ Hs Hp Ha E2).
       intros Ha1. destruct (Hinv (Haw Ha1)) as [d [Hd He]]. exists d. split; [congruence|].
       cbn [existsb] in He. destruct e; cbn [reply_before is_pingresp] in *; try discriminate; exact He. }
-    destruct e; cbn [is_parked] in Hne; try discriminate; unfold kstep in E1; cbn [kstep_gen andb] in E1.
+    destruct e; cbn [is_parked is_fail] in Hne, Hnfe; try discriminate; unfold kstep in E1; cbn [kstep_gen andb] in E1.
     + (* Connect *) inversion E1. subst. cbn [app]. split; [reflexivity|].
-      refine (IH _ s2 o2 _ Hnp _ Hs Hp Ha E2); [first [exact Hc | reflexivity]|]. cbn [await deadline]. intros Ha1. destruct (Hinv Ha1) as [d [Hd He]].
+      refine (IH _ s2 o2 _ Hnp Hnf _ Hs Hp Ha E2); [first [exact Hc | reflexivity]|]. cbn [await deadline]. intros Ha1. destruct (Hinv Ha1) as [d [Hd He]].
       exists d. rewrite Hd. split; [reflexivity|]. cbn [existsb reply_before] in He. exact He.
     + (* Tick *) destruct (deadline s) as [d|] eqn:Hd.
       2:{ inversion E1. subst. apply Hkeep; auto. }
@@ -177,12 +182,12 @@ Proof.
         destruct x; cbn [reply_before time_of] in *; try discriminate. lia. }
       unfold kping in E1. cbn [coll cpc await deadline] in E1. rewrite Hc, Haf in E1. cbn [andb] in E1.
       inversion E1. subst s1 o1. split; [reflexivity|].
-      refine (IH _ s2 o2 _ Hnp _ Hs Hp Ha E2); [reflexivity|]. cbn [await deadline]. intros _. exists (d + ka). split; [reflexivity|].
+      refine (IH _ s2 o2 _ Hnp Hnf _ Hs Hp Ha E2); [reflexivity|]. cbn [await deadline]. intros _. exists (d + ka). split; [reflexivity|].
       cbn [forallb] in Hao. apply andb_true_iff in Hao. apply Hao.
-    + (* PingResp *) inversion E1. subst. split; [reflexivity|]. refine (IH _ s2 o2 _ Hnp _ Hs Hp Ha E2); [exact Hc|]. cbn [await]. discriminate.
+    + (* PingResp *) inversion E1. subst. split; [reflexivity|]. refine (IH _ s2 o2 _ Hnp Hnf _ Hs Hp Ha E2); [exact Hc|]. cbn [await]. discriminate.
     + (* Other *) inversion E1. subst. apply Hkeep; auto.
     + (* Resolved *) inversion E1. subst. cbn [app]. split; [reflexivity|].
-      refine (IH _ s2 o2 _ Hnp _ Hs Hp Ha E2); [first [exact Hc | reflexivity]|]. cbn [await deadline]. intros Ha1. destruct (Hinv Ha1) as [d [Hd He]].
+      refine (IH _ s2 o2 _ Hnp Hnf _ Hs Hp Ha E2); [first [exact Hc | reflexivity]|]. cbn [await deadline]. intros Ha1. destruct (Hinv Ha1) as [d [Hd He]].
       exists d. split; [exact Hd|]. cbn [existsb reply_before] in He. exact He.
 Qed.
 
@@ -197,6 +202,42 @@ Proof.
     destruct H1 as [Ho1 Hd1]. destruct (IH s1 s2 o2 Hd1 E2) as [Ho2 Hd2].
     inversion Hr. subst. auto.
 Qed.
+
+(** ---- a new connection starts from scratch whatever state the previous one ended in: clean()
+    (run by every failure) drops the timer and clears the outstanding-ping flag, so the
+    no-false-alarm theorem holds on every connection of a run *)
+Lemma fresh_connection ka s t0 c : 0 < ka ->
+  fst (kstep ka (fst (kstep ka s (ConnFail t0))) (Connect c)) = mkK (Some (c + ka)) false false 0.
+Proof.
+  intros Hka. unfold kstep. cbn [kstep_gen kclean fst deadline await coll cpc andb].
+  destruct (N.eqb_spec ka 0); [lia|reflexivity].
+Qed.
+
+Lemma error_is_clean s t : is_err (snd (kping s t)) = true -> fst (kping s t) = kclean s.
+Proof.
+  unfold kping. destruct (coll s && (2 <=? (if coll s then cpc s + 1 else cpc s))); [reflexivity|].
+  destruct (await s); [reflexivity|]. cbn. discriminate.
+Qed.
+
+Theorem ka_no_false_alarm_after_reconnect ka s t0 c tr s' outs : 0 < ka ->
+  existsb is_parked tr = false -> existsb is_fail tr = false ->
+  sorted tr = true ->
+  prompt ka (fst (kstep ka (fst (kstep ka s (ConnFail t0))) (Connect c))) tr = true ->
+  answered ka (fst (kstep ka (fst (kstep ka s (ConnFail t0))) (Connect c))) tr = true ->
+  krun ka (fst (kstep ka (fst (kstep ka s (ConnFail t0))) (Connect c))) tr = (s', outs) -> no_err outs = true.
+Proof.
+  intros Hka Hnp Hnf Hs Hp Ha Hr. rewrite (fresh_connection ka s t0 c Hka) in *.
+  apply (ka_no_false_alarm ka tr (mkK (Some (c + ka)) false false 0) s' outs); auto. cbn [await]. discriminate.
+Qed.
+
+(** the previous connection ended with a PINGREQ unanswered (the half-open detection itself), the
+    next one answers at once: three clean round trips, no error *)
+Example ex_reconnect_after_await :
+  snd (krun 1000 kinit [Connect 0; Tick 1000; Tick 2000; Connect 2000; Tick 3000; PingResp 3000; Tick 4000; PingResp 4001; Tick 5000; PingResp 5500])
+  = [PingReqAt 1000; ErrAwait 2000; PingReqAt 3000; PingReqAt 4000; PingReqAt 5000]
+  /\ snd (krun 1000 kinit [Connect 0; Tick 1000; ConnFail 1500; Connect 1500; Tick 2500; PingResp 2600; Tick 3500])
+  = [PingReqAt 1000; PingReqAt 2500; PingReqAt 3500].
+Proof. vm_compute. split; reflexivity. Qed.
 
 (** ---- connect timeout *)
 Theorem connect_timeout tm h :
@@ -223,6 +264,7 @@ Proof.
       - destruct (deadline s); [destruct (_ <=? _)|]; try (inversion E1; subst; cbn; auto; fail).
         unfold kping in E1. cbn [coll cpc await deadline] in E1. rewrite Hc in E1. cbn [andb] in E1.
         destruct (await s); inversion E1; subst; cbn; split; auto; intros [H | []]; discriminate.
+      - inversion E1. subst. cbn. auto.
       - inversion E1. subst. cbn. auto.
       - inversion E1. subst. cbn. auto.
       - inversion E1. subst. cbn. auto. }
